@@ -24,18 +24,22 @@ from . import report
 # (relative file, old text, new text, expected rule or None)
 MUTANTS: Dict[str, List[Tuple[str, str, str, Optional[str]]]] = {
     "C01": [
+        ('pyttb/tenmat.py', '        if order.size > 1:\n            if not copy:', '        if order.size > 1 and self.rindices.size > 0 and self.cindices.size > 0:\n            if not copy:', 'INV'),
         ("pyttb/tenmat.py", "data = to_memory_order(np.transpose(data, np.argsort(order)), self.order)", "data = to_memory_order(np.transpose(data, order), self.order)", "INV"),
         ("pyttb/tenmat.py", "data = np.reshape(data, np.array(shape)[order], order=self.order)", "data = np.reshape(data, np.array(shape)[order])", "EO-1"),
         ("pyttb/sptensor.py", "cidx = tt_sub2ind(csize, self.subs[:, cdims])", "cidx = tt_sub2ind(csize, self.subs[:, rdims])", "PS"),
         ("pyttb/ktensor.py", "ttb.khatrirao(*self.factor_matrices[:i_split], reverse=True)", "ttb.khatrirao(*self.factor_matrices[:i_split])", "KR"),
     ],
     "C02": [
+        ('pyttb/ktensor.py', '        W = np.tile(self.weights[:, None], (1, R))', '        W = np.ones((self.ncomponents, R))', 'WDEG'),
+        ('pyttb/tensor.py', '            V = np.zeros((szn, R), order=self.order)', '            V = np.zeros((szn, R), dtype=self.data.dtype, order=self.order)', 'DTYPE'),
         ("pyttb/tensor.py", "            c = c.dot(vector[vidx[i]])", "            c = c.dot(vector[i])", "VIDX"),
         ("pyttb/pyttb_utils.py", "        if n == 0:\n            U.redistribute(1)", "        if n == 0:\n            U.redistribute(0)", "WEIGHTS"),
         ("pyttb/ttensor.py", "        U = ttb_utils.get_mttkrp_factors(U, n, self.ndims)", "        if isinstance(U, ttb.ktensor):\n            U = U.factor_matrices", "WEIGHTS"),
         ("pyttb/sumtensor.py", "        for part in self.parts[1:]:\n            result += part.mttkrp(U, n)", "        for part in self.parts[2:]:\n            result += part.mttkrp(U, n)", "FOLD"),
     ],
     "C03": [
+        ('pyttb/sptensor.py', 'operator(self.extract(subs3), other.extract(subs3))', 'operator(self.vals[tt_intersect_rows(self.subs, other.subs)], other.vals[tt_intersect_rows(other.subs, self.subs)])', 'IX-seq'),
         ("pyttb/sptensor.py", "            _, idxOther = tt_ismember_rows(self.subs[idxSelf], other.subs)\n            return ttb.sptensor(", "            idxOther = tt_intersect_rows(other.subs, self.subs)\n            return ttb.sptensor(", "IX-seq"),
         ("pyttb/sptensor.py", "lambda x: len(x) == 2", "lambda x: len(x) >= 1", "CNTPRED"),
         ("pyttb/sptensor.py", "return self._compare(other, lt, gt)", "return self._compare(other, lt, ge)", "CONV"),
@@ -43,6 +47,7 @@ MUTANTS: Dict[str, List[Tuple[str, str, str, Optional[str]]]] = {
         ("pyttb/sptensor.py", "cvals = self.vals * np.atleast_1d(other[csubs])[:, None]", "cvals = self.vals * other[csubs][:, None]", "SC"),
     ],
     "C04": [
+        ('pyttb/sptensor.py', '                self.subs = newsubs[idxc, :]\n                self.vals = newvals[idxc]\n\n        # Resize the tensor', '                self.subs = newsubs[idxc, :]\n                self.vals = newvals[idxc]\n        else:\n            return\n\n        # Resize the tensor', 'GROW'),
         ("pyttb/sptensor.py", "            removesubs = tf[idxb]", "            removesubs = np.where(idxb)[0]", "IX-dom"),
         ("pyttb/sptensor.py", "        idxa = np.logical_and(found, nonzero_new)", "        idxa = np.logical_and(found, newvals != 0)", "IX-kind"),
         ("pyttb/tensor.py", "        idx = tt_ind2sub(self.shape, idx)\n        if idx.shape[0] == 1:", "        idx = tt_ind2sub(self.shape, idx, order=\"C\")\n        if idx.shape[0] == 1:", "EO-1"),
@@ -68,6 +73,8 @@ MUTANTS: Dict[str, List[Tuple[str, str, str, Optional[str]]]] = {
         ("pyttb/ttensor.py", "new_u = [self.factor_matrices[idx] for idx in order]", "new_u = [self.factor_matrices[idx] for idx in np.argsort(order)]", None),
     ],
     "C08": [
+        ('pyttb/ktensor.py', '        D = np.diag(np.power(np.fabs(self.weights), 1.0 / self.ndims))\n        factor_matrices = self.factor_matrices.copy()\n        factor_matrices[0] = factor_matrices[0] @ np.diag(lsgn)', '        D = np.diag(lsgn * np.power(np.fabs(self.weights), 1.0 / self.ndims))\n        factor_matrices = self.factor_matrices.copy()', 'SCALE'),
+        ('pyttb/ktensor.py', '                nflip = int(2 * np.floor(np.size(negidx) / 2))\n\n                for i in range(nflip):\n                    n = negidx[i]', '                nflip = 2 * round(np.size(negidx) / 2)\n\n                for n in negidx[:nflip]:', 'PARITY'),
         ("pyttb/ktensor.py", "                    endpt = breakpt + 2", "                    endpt = breakpt + 1", "PARITY"),
         ("pyttb/ktensor.py", "                nflip = int(2 * np.floor(np.size(negidx) / 2))", "                nflip = int(np.size(negidx))", "PARITY"),
         ("pyttb/ktensor.py", "                    new_factor_matrices.append(self.factor_matrices[i][:, components])", "                    new_factor_matrices.append(self.factor_matrices[i][:, sorted(components)])", "PS-k"),
@@ -88,6 +95,7 @@ MUTANTS: Dict[str, List[Tuple[str, str, str, Optional[str]]]] = {
         ("pyttb/tucker_als.py", "normresidual = np.sqrt(abs(normX**2 - core.norm() ** 2))", "normresidual = np.sqrt(abs(normX**2 - core.norm()))", "FIT"),
     ],
     "C11": [
+        ('pyttb/cp_apr.py', '        skip_zeros = data_row != 0', '        skip_zeros = b_pi > 0', 'LL'),
         ("pyttb/cp_apr.py", "        model_new = model_old * phi_row  # multiplicative update\n\n        # Project to the constraints and reevaluate the subproblem objective\n        model_new *= model_new > 0\n", "        model_new = model_old * phi_row  # multiplicative update\n\n", "PROJ"),
         ("pyttb/cp_apr.py", "\"kktViolations\": kktViolations[: iteration + 1],\n        \"nInnerIters\"", "\"kktViolations\": kktViolations[:iteration],\n        \"nInnerIters\"", "TRACE"),
         ("pyttb/cp_apr.py", "    for iteration in range(maxiters):\n        isConverged = True\n        for n in range(N):\n            # Make adjustments", "    for iteration in range(maxiters + 1):\n        isConverged = True\n        for n in range(N):\n            # Make adjustments", "LOOP"),
@@ -106,11 +114,14 @@ MUTANTS: Dict[str, List[Tuple[str, str, str, Optional[str]]]] = {
         ("pyttb/gcp/optimizers.py", "        self._solver_kwargs[\"callback\"] = monitor.callback", "        pass", "ST-slot"),
     ],
     "C14": [
+        ('pyttb/ktensor.py', '        M = self.weights[:, None] @ self.weights[:, None].T\n        for i in range(self.ndims):', '        M = np.tile(self.weights[:, None], (1, self.ncomponents))\n        for i in range(self.ndims):', 'EIG-gram'),
+        ('pyttb/tensor.py', '            w, v = scipy.linalg.eigh(y)\n            v = v[:, (-np.abs(w)).argsort()]\n            v = v[:, :r]', '            v, _, _ = scipy.linalg.svd(Xn, full_matrices=False)\n            v = v[:, :r]', 'EIG-ret'),
         ("pyttb/ktensor.py", "            w, v = scipy.linalg.eigh(y)\n            v = v[:, (-np.abs(w)).argsort()]", "            w, v = scipy.linalg.eigh(y)\n            v = v[(-np.abs(w)).argsort()]", "EIG-ret"),
         ("pyttb/ttensor.py", "            w, v = scipy.linalg.eigh(Y)\n            v = v[:, (-np.abs(w)).argsort()]", "            w, v = scipy.linalg.eigh(Y)\n            v = v[:, (np.abs(w)).argsort()]", "EIG-ret"),
         ("pyttb/ttensor.py", "            idx = np.argmax(np.abs(v), axis=0)", "            idx = np.argmax(np.abs(v), axis=1)", "EIG-sign"),
     ],
     "C15": [
+        ('pyttb/tensor.py', '                    != self.data[tuple(classidx.transpose())]\n                ):\n                    return False\n\n            # We survived all the tests!\n            return True', '                    != self.data[tuple(classidx.transpose())]\n                ):\n                    is_sym = False\n                else:\n                    is_sym = True\n\n            # We survived all the tests!\n            return is_sym', 'ALLGRP'),
         ("pyttb/tensor.py", "classSum = accumarray(linclassidx, data.ravel(order=self.order))", "classSum = accumarray(linclassidx, data.ravel())", "EO-2"),
         ("pyttb/tensor.py", "                    self.data.ravel(order=self.order)\n                    != self.data[tuple(classidx.transpose())]", "                    self.data.ravel(order=\"C\")\n                    != self.data[tuple(classidx.transpose())]", "EO-2"),
     ],
